@@ -446,6 +446,36 @@ def _is_field(f, node, rec, fld):
     return l["k"] == "mem" and l.get("in") == rec and l["member"] == fld
 
 
+def _pinned_to(f, ats, field, value):
+    """Do the dominating comparisons of the (unsigned) field with constants leave exactly `value`?  (`== 1`, or
+    `!= 0` together with `<= 1`, what is left of `if (0 == n) return; if (n > 1) { ...; return; }`)"""
+    lo, hi, ne = 0, None, set()
+    for a in ats:
+        if a.R is None or a.R.const is None or not a.L.has(field) or a.L.calls or a.L.incr is not None or len(a.L.fields) != 1:
+            continue
+        n = f.exprs[a.L.node] if a.L.node is not None else None
+        if n is None or n["k"] != "mem":
+            continue
+        c = a.R.const
+        if a.rel == "==":
+            lo, hi = max(lo, c), c if hi is None else min(hi, c)
+        elif a.rel == "!=":
+            ne.add(c)
+        elif a.rel == "<":
+            hi = c - 1 if hi is None else min(hi, c - 1)
+        elif a.rel == "<=":
+            hi = c if hi is None else min(hi, c)
+        elif a.rel == ">":
+            lo = max(lo, c + 1)
+        elif a.rel == ">=":
+            lo = max(lo, c)
+    while lo in ne:
+        lo += 1
+    while hi is not None and hi in ne:
+        hi -= 1
+    return hi is not None and lo == hi == value
+
+
 def _ref_counters(ctx, run):
     """RF-CORR: cache_page.ref_count 0 <-> 1 transitions are mirrored in cache_network.n_referenced_pages."""
     P = ctx.prog
@@ -463,7 +493,7 @@ def _ref_counters(ctx, run):
                 c = ex.const(f, e["c"][1])
                 if c == 0:
                     # initialisation of a fresh page is not a release
-                    if not any(a.cmp_const("==", "cache_page.ref_count", 1) for a in atoms.atoms_at(f, i)):
+                    if not _pinned_to(f, atoms.atoms_at(f, i), "cache_page.ref_count", 1):
                         continue
                     n += 1
                     run.touch(f)
